@@ -316,7 +316,15 @@ class NBuilder(object):
                     x = int(x["num"]) / int(x["den"]) if "num" in x else float(x.get("float", 0.0))
                 words.append("%s%r" % (chr(c), float(x)))
         self.last_code = code
-        return (code + " " + " ".join(words)).strip()
+        text = (code + " " + " ".join(words)).strip()
+        if self.rnd is None:
+            mv = self.model.get(name)
+            if isinstance(mv, dict) and "str" in mv:
+                # the solver's value of the command text: wherever the model stores that same text (e.g. as an entry of
+                # the deferred-command table) the real command built here stands for it
+                self.text_alias = getattr(self, "text_alias", {})
+                self.text_alias[mv["str"]] = text
+        return text
 
     def ordmap(self, name):
         from collections import OrderedDict
@@ -324,6 +332,23 @@ class NBuilder(object):
         if self.rnd is not None:       # random probe: mostly empty tables (and empty outside an episode: invariant I-excl)
             empty = self.rnd.random() < 0.75 or not self.model.cache.get("excluding", True)
             self.model.cache[name + ".len"] = 0.0 if empty else float(self.rnd.randrange(1, 3))
+        tab = self._struct(name + ".table") if self.rnd is None else None
+        if tab and tab.get("ordmap") is not None:
+            # counter-model / candidate: the table the solver chose
+            def txt(x):
+                x = x.get("str", "") if isinstance(x, dict) else x
+                return self._unescape(x) if hasattr(self, "_unescape") else x
+
+            def num(x):
+                if isinstance(x, dict) and "num" in x:
+                    return float(int(x["num"])) / float(int(x["den"]))
+                return float(x.get("float", 0.0)) if isinstance(x, dict) else float(x)
+            for ent in tab["ordmap"]:
+                if ent.get("is_map"):
+                    d[txt(ent["key"])] = OrderedDict((l, None if v is None else num(v)) for l, v in ent.get("args", {}).items())
+                else:
+                    d[txt(ent["key"])] = txt(ent["sval"])
+            return d
         for i in range(min(3, max(0, int(self._num(name + ".len", 0))))):
             d["M%d" % (900 + i)] = "M%d S%d" % (900 + i, i)
         return d
@@ -504,6 +529,15 @@ def replay(req):
     pre = con.pre_builder(b)
     self_obj = pre.get("self")
     args = dict(pre.get("args", {}))
+    alias = getattr(b, "text_alias", None)
+    if alias:
+        from collections import OrderedDict as _OD
+        for holder in (self_obj, getattr(self_obj, "state", None)):
+            tab = getattr(holder, "pendingCommands", None)
+            if isinstance(tab, _OD):
+                for k_, v_ in list(tab.items()):
+                    if isinstance(v_, str) and v_ in alias:
+                        tab[k_] = alias[v_]
     ghost = pre.get("ghost", {})
     locs = dict(args)
     if self_obj is not None:
